@@ -231,8 +231,8 @@ func runWorker(args []string) int {
 		if r%97 == 0 || (r < 3*(*W) && *w == 0) {
 			again := execTape(*prop, tp.Rec, r < 3*(*W) && *w == 0, env)
 			res.SelfChecks++
-			if again.Ctx.L.Digest != rr.Ctx.L.Digest || (again.V == nil) != (rr.V == nil) {
-				res.Harness = fmt.Sprintf("run %d: re-execution from its own tape diverged (digest %x vs %x): either the harness is not deterministic or the library carries state from one execution to the next (e.g. pooled buffers whose size the simulated reader can see)", r, rr.Ctx.L.Digest, again.Ctx.L.Digest)
+			if again.Ctx.L.OpDigest != rr.Ctx.L.OpDigest || (again.V == nil) != (rr.V == nil) {
+				res.Harness = fmt.Sprintf("run %d: re-execution from its own tape diverged (operation digest %x vs %x): either the harness is not deterministic or the library carries state from one execution to the next (e.g. pooled buffers whose size the simulated reader can see)", r, rr.Ctx.L.OpDigest, again.Ctx.L.OpDigest)
 				code = 2
 				break
 			}
